@@ -59,3 +59,28 @@ for _name, _opts in DC_OPTS.items():
     DC[_name] = (_mk(False), _mk(True))
     globals()[DC[_name][0].__name__] = DC[_name][0]
     globals()[DC[_name][1].__name__] = DC[_name][1]
+
+
+# inheritance: a decorated dataclass deriving from a decorated / an undecorated dataclass, and an undecorated one deriving from a
+# decorated one (its own generated __init__ replaces the checked one: nothing is validated, as for any undecorated class)
+@dltype.dltyped_dataclass()
+@dataclasses.dataclass
+class BaseChecked:
+    x: A
+
+
+@dltype.dltyped_dataclass()
+@dataclasses.dataclass
+class DerivedOfChecked(BaseChecked):
+    y: B = None  # type: ignore[assignment]
+
+
+@dataclasses.dataclass
+class BasePlain:
+    x: A
+
+
+@dltype.dltyped_dataclass()
+@dataclasses.dataclass
+class DerivedOfPlain(BasePlain):
+    y: B = None  # type: ignore[assignment]
